@@ -543,10 +543,12 @@ impl Session {
                             // rendering is checked, the FIRST graph and message are built with the
                             // token raised, while nothing has been cached by an earlier rendering.
                             let prev_cancel = s.provider().cancel.get();
-                            if render {
-                                s.provider().cancel.set(Cancel::Sticky(0));
-                            }
+                            // (the graph itself is always first built with the token raised)
+                            s.provider().cancel.set(Cancel::Sticky(0));
                             let graph = conflict.graph(s);
+                            if !render {
+                                s.provider().cancel.set(prev_cancel);
+                            }
                             let mut gd = GraphData::default();
                             let g = &graph.graph;
                             let mut map = std::collections::HashMap::new();
@@ -620,9 +622,10 @@ impl Session {
                 }
             })
         };
-        let (res, lab) = if labels {
-            // one universe in eight is solved under a TRACE-level subscriber
-            let verbose = crate::runner::hash_of(&(&*self.u, 3u8)) % 8 == 0;
+        // one universe in eight is solved under a TRACE-level subscriber (whether or not the
+        // check reads the search-depth labels)
+        let verbose = crate::runner::hash_of(&(&*self.u, 3u8)) % 8 == 0;
+        let (res, lab) = if labels || verbose {
             with_labels_trace(verbose, || guarded(|| run(&mut solver)))
         } else {
             (guarded(|| run(&mut solver)), Labels::default())
